@@ -70,6 +70,7 @@ class AsyncTLSStreamTransport(AsyncStreamTransport):
     __incoming_reader: _IncomingDataReader = dataclasses.field(init=False)
     __transport_send_lock: ILock = dataclasses.field(init=False)
     __transport_recv_lock: ILock = dataclasses.field(init=False)
+    __incoming_read_count: int = dataclasses.field(init=False, default=0)
     __closing: bool = dataclasses.field(init=False, default=False)
     __closed: IEvent = dataclasses.field(init=False)
     __tls_extra_atributes: Mapping[Any, Callable[[], Any]] = dataclasses.field(init=False)
@@ -289,8 +290,13 @@ class AsyncTLSStreamTransport(AsyncStreamTransport):
                             if self._write_bio.pending:
                                 await self._transport.send_all(self._write_bio.read())
 
+                    incoming_read_count = self.__incoming_read_count
                     async with self.__transport_recv_lock:
-                        await self.__incoming_reader.readinto(self._read_bio)
+                        # NOTE: If another task fed the read BIO while this one was waiting for the lock, retry the SSL method
+                        #       first. What it was waiting for may already be there, and nothing else might come.
+                        if incoming_read_count == self.__incoming_read_count:
+                            await self.__incoming_reader.readinto(self._read_bio)
+                            self.__incoming_read_count += 1
                 except OSError:
                     self._read_bio.write_eof()
                     self._write_bio.write_eof()
